@@ -395,6 +395,14 @@ def check_blocking_waits(ctx):
                        "(peer bytes) - when the peer closes inside a frame, the Separate.req queued by _on_disconnecting is never sent, BlockSendInfo.wait() never returns and the close sequence never finishes",
                        key=norm(n.ast), where=f.where, notifiers=notifiers, stop_path_calls=sorted(stop_calls))
         ctx.floor("ByteQueue waits in the HSMS framing loop", n_sites, 2)
+    check_bytequeue_wait(ctx, "C09.W1")
+
+
+def check_bytequeue_wait(ctx, rule):
+    repo = ctx.repo
+    bq = repo.cls("ByteQueue")
+    wf = bq.methods["wait_for"]
+    ctx.touch(wf)
     # the wait itself: predicate loop under the condition (a spurious or early wake-up must re-check)
     pred_loop = any((call_name(c) or "").endswith("_buffer_lock.wait_for") for c in calls_in(wf.node))
     in_with = False
@@ -407,7 +415,7 @@ def check_blocking_waits(ctx):
         for st in walk_no_nested(wf.node):
             if isinstance(st, ast.While) and any((call_name(c) or "").endswith("_buffer_lock.wait") for c in calls_in(st)):
                 pred_loop = "len(self._buffer)" in norm(st.test)
-    ctx.ob("C09.W1", wf.qualname, pred_loop and in_with, "the wait re-checks its size predicate under the condition" if (pred_loop and in_with) else
+    ctx.ob(rule, wf.qualname, pred_loop and in_with, "the wait re-checks its size predicate under the condition" if (pred_loop and in_with) else
            "ByteQueue.wait_for waits once without re-checking the predicate: the first chunk of a frame wakes the reader with too few bytes", key="predicate-loop", where=wf.where)
     ap = bq.methods["append"]
     ok = False
@@ -415,7 +423,7 @@ def check_blocking_waits(ctx):
         if isinstance(st, ast.With) and any(dotted(i.context_expr) == "self._buffer_lock" for i in st.items):
             names = [call_name(c) or "" for c in calls_in(st)]
             ok = "self._buffer.extend" in names and any(x.startswith("self._buffer_lock.notify") for x in names)
-    ctx.ob("C09.W1", ap.qualname, ok, "append extends the buffer and notifies under the same condition" if ok else "append does not extend+notify under the condition: a blocked reader is not woken by new bytes", where=ap.where)
+    ctx.ob(rule, ap.qualname, ok, "append extends the buffer and notifies under the same condition" if ok else "append does not extend+notify under the condition: a blocked reader is not woken by new bytes", where=ap.where)
 
 
 def check_definite_assignment(ctx):
